@@ -50,6 +50,45 @@ check(
     "DESIGN.md section 4 C08", engine="E4 values",
 )
 
+check(
+    "C03", "exploration",
+    "Hypothesis-generated objects (recursive typed universe with payloads around the 8 KiB block / 64 KiB frame / 1 MiB buffer "
+    "sizes, shared and cyclic references, user classes) crossed with compress argument forms, protocols 0..5, targets "
+    "(path with neutral/matching/mismatching extension, file object, BytesIO) and a rename before loading.  Oracle: "
+    "alias-aware type-exact deep equality of load(dump(x)), dump's return value, the promised compressor's magic, and the "
+    "stdlib decoder expanding the output to the uncompressed dump.  Random search.",
+    "Deep equality is the harness' own; numpy absent (C19); objects only picklable by cloudpickle and the legacy multi-file "
+    "format are not generated; lz4 only checked to be rejected.",
+    "Hypothesis generated-input search; round-trip oracle + differential oracle vs stdlib decoders",
+    "DESIGN.md section 4 C03", engine="E4 values",
+)
+
+check(
+    "C13", "exploration",
+    "Model-based testing of BinaryZlibFile/BinaryGzipFile: Hypothesis draws payloads (sizes at and around the 8192-byte block "
+    "and its multiples, compressible and incompressible), stdlib-compressed at a drawn level, and operation lists over "
+    "read/readinto/readline/tell/seek(3 whence modes, forwards/backwards/past the end); every return value and tell() is "
+    "compared with an in-memory (data, pos) reference stream.  Writer cases: drawn chunkings and levels, output expanded by "
+    "stdlib zlib/gzip and re-read through joblib.",
+    "stdlib zlib/gzip are the reference; operation lists up to 30 ops; seeks to negative positions and read(None) are not "
+    "generated; thread-safety of the file object is not exercised.",
+    "Hypothesis model-based (stateful) operation sequences vs reference byte-stream model; differential vs stdlib codecs",
+    "DESIGN.md section 4 C13",
+)
+
+check(
+    "C14", "fault_enumeration",
+    "For Hypothesis-generated joblib files (objects x all five compressors + raw x levels x protocols) every truncation "
+    "length is enumerated when the file is <= 600 bytes, otherwise a boundary-biased set; plus suffix extensions (1 byte, "
+    "random bytes, own magic, copy of itself, another valid file).  Each damaged file is loaded from memory and from a path "
+    "under an alarm and an address-space cap: it must raise or return the original, never hang, never return something else.  "
+    "The same damage is applied to Memory's output.pkl and the cached call must recompute the right value.",
+    "Truncation is exhaustive only for files <= 600 bytes; 'hang' is decided by a 20 s alarm confirmed at 60 s, or by "
+    "exhausting a 2 GiB address space on a tiny file; files are sampled, not enumerated.",
+    "fault enumeration over truncation offsets/suffixes of Hypothesis-generated files; validity oracle (raises or deep-equal original) with watchdog",
+    "DESIGN.md section 4 C14", engine="E4 values",
+)
+
 NOT_YET = "check not built yet in this session (work in progress; see DESIGN.md section 4 for the planned generator and oracle)"
 
 
